@@ -4,74 +4,6 @@ From Cicada Require Import Model.Jobs Proofs.JobsSpec.
 Import ListNotations.
 Local Open Scope Z_scope.
 
-(** * A. binary_search_by on an ascending vector *)
-Definition asc (l : list Z) : Prop :=
-  forall i j, (i < j)%nat -> (j < length l)%nat -> nth i l 0 < nth j l 0.
-
-Lemma half_facts : forall size, (2 <= size)%nat ->
-  (1 <= size / 2)%nat /\ (size / 2 <= size - size / 2)%nat /\ (size / 2 < size)%nat.
-Proof.
-  intros size H.
-  pose proof (Nat.div_mod size 2 ltac:(lia)).
-  pose proof (Nat.mod_upper_bound size 2 ltac:(lia)).
-  lia.
-Qed.
-
-Lemma bs_loop_spec : forall fuel l x base size,
-  asc l -> (size <= fuel)%nat -> (1 <= size)%nat -> (base + size <= length l)%nat ->
-  (forall k, (k < length l)%nat -> nth k l 0 = x -> (base <= k < base + size)%nat) ->
-  let b := bs_loop fuel l x base size in
-  (b < length l)%nat /\ (forall k, (k < length l)%nat -> nth k l 0 = x -> k = b).
-Proof.
-  induction fuel as [|f IH]; intros l x base size Ha Hf H1 Hb Hk.
-  - lia.
-  - cbn [bs_loop].
-    destruct (size <=? 1)%nat eqn:E.
-    + apply Nat.leb_le in E. split; [lia|]. intros k K1 K2. specialize (Hk k K1 K2). lia.
-    + apply Nat.leb_gt in E.
-      destruct (half_facts size ltac:(lia)) as (h1 & h2 & h3).
-      set (half := (size / 2)%nat) in *.
-      destruct (nth (base + half) l 0 >? x) eqn:G.
-      * apply IH; try assumption; try lia.
-        intros k K1 K2. specialize (Hk k K1 K2).
-        assert (k < base + half)%nat.
-        { destruct (Nat.lt_ge_cases k (base + half)) as [L|L]; [exact L|].
-          exfalso. apply Z.gtb_lt in G.
-          destruct (Nat.eq_dec k (base + half)) as [->|N]; [lia|].
-          pose proof (Ha (base + half)%nat k ltac:(lia) K1). lia. }
-        lia.
-      * apply IH; try assumption; try lia.
-        intros k K1 K2. specialize (Hk k K1 K2).
-        assert (base + half <= k)%nat.
-        { destruct (Nat.lt_ge_cases k (base + half)) as [L|L]; [|exact L].
-          exfalso. rewrite Z.gtb_ltb in G. apply Z.ltb_ge in G.
-          pose proof (Ha k (base + half)%nat L ltac:(lia)). lia. }
-        lia.
-Qed.
-
-(** On an ascending vector the search finds every member, at its index. *)
-Theorem binary_search_asc : forall l x, asc l ->
-  (In x l -> exists i, binary_search l x = inl i /\ (i < length l)%nat /\ nth i l 0 = x) /\
-  (forall i, binary_search l x = inl i -> (i < length l)%nat /\ nth i l 0 = x).
-Proof.
-  intros l x Ha. unfold binary_search.
-  destruct (length l =? 0)%nat eqn:E.
-  - apply Nat.eqb_eq in E. destruct l; [|discriminate]. split; [intros []|discriminate].
-  - apply Nat.eqb_neq in E.
-    destruct (bs_loop_spec (length l) l x 0 (length l) Ha ltac:(lia) ltac:(lia) ltac:(lia)) as (B1 & B2).
-    { intros; lia. }
-    set (b := bs_loop (length l) l x 0 (length l)) in *.
-    split.
-    + intros Hin. apply (In_nth _ _ 0) in Hin. destruct Hin as (k & K1 & K2).
-      pose proof (B2 k K1 K2) as ->. exists b. rewrite K2, Z.eqb_refl. auto.
-    + intros i. destruct (nth b l 0 =? x) eqn:Q; [|discriminate].
-      intros [= <-]. apply Z.eqb_eq in Q. auto.
-Qed.
-
-(** Not so on a vector in launch order: the witness of the design note. *)
-Lemma binary_search_unsorted : binary_search [9; 3] 9 = inr 2%nat /\ In 9 [9; 3].
-Proof. split; [reflexivity | simpl; auto]. Qed.
-
 (** * B. job ids: strictly increasing keys from 1, smallest unused id for a new job *)
 Fixpoint sorted_from (i : Z) (t : table) : Prop :=
   match t with
@@ -112,13 +44,17 @@ Proof.
       * apply Z.ltb_ge in E2. apply Z.eqb_neq in E1. lia.
 Qed.
 
+(** [t1] holds exactly the ids i, i+1, .., k-1 in order *)
+Fixpoint consec (i : Z) (t1 : table) (k : Z) : Prop :=
+  match t1 with [] => i = k | a :: r => jid a = i /\ consec (i + 1) r k end.
+
 (** a job with a fresh group id is put at the smallest id not in use *)
 Lemma insert_job_from_fresh : forall t i gid pid bg,
   sorted_from i t -> (forall j, In j t -> jgid j <> gid) ->
   exists k t1 t2, t = t1 ++ t2 /\
     insert_job_from i t gid pid bg = t1 ++ new_job k gid pid bg :: t2 /\
     i <= k /\ (forall m, i <= m < k -> In m (map jid t1)) /\
-    (forall j, In j t1 -> jid j < k) /\ (forall j, In j t2 -> k < jid j).
+    (forall j, In j t1 -> jid j < k) /\ (forall j, In j t2 -> k < jid j) /\ consec i t1 k.
 Proof.
   induction t as [|a t IH]; intros i gid pid bg H Hg; simpl.
   - exists i, [], []. simpl. repeat split; try lia; try tauto.
@@ -127,7 +63,7 @@ Proof.
     + apply Z.eqb_eq in E1.
       destruct (jgid a =? gid) eqn:E3.
       { apply Z.eqb_eq in E3. exfalso. apply (Hg a); simpl; auto. }
-      destruct (IH (i + 1) gid pid bg) as (k & t1 & t2 & A & B & Cc & D & E & F).
+      destruct (IH (i + 1) gid pid bg) as (k & t1 & t2 & A & B & Cc & D & E & F & G).
       { rewrite <- E1. exact H2. } { intros j Hj. apply Hg. simpl; auto. }
       exists k, (a :: t1), t2. simpl. rewrite B, A. repeat split; try lia; auto.
       * intros m Hm. destruct (Z.eq_dec m i) as [->|N]; [left; exact E1|]. right. apply D. lia.
@@ -136,6 +72,35 @@ Proof.
       * apply Z.ltb_lt in E2. exists i, [], (a :: t). simpl. repeat split; try lia; try tauto.
         intros j [<-|Hj]; [lia|]. pose proof (sorted_from_lb _ _ _ H2 Hj). lia.
       * apply Z.ltb_ge in E2. apply Z.eqb_neq in E1. lia.
+Qed.
+
+Lemma insert_job_from_existing : forall t1 i k J t2 g p bg,
+  consec i t1 k -> (forall x, In x t1 -> jgid x <> g) -> jid J = k -> jgid J = g ->
+  insert_job_from i (t1 ++ J :: t2) g p bg =
+  t1 ++ mkjob (jid J) (jgid J) (jpids J ++ [p]) (jstopped J) (jst J) (jbg J) :: t2.
+Proof.
+  induction t1 as [|a t1 IH]; simpl; intros i k J t2 g p bg Hc Hg Hk HJ.
+  - subst i. rewrite Hk, Z.eqb_refl. rewrite HJ, Z.eqb_refl. reflexivity.
+  - destruct Hc as (Ha & Hc). rewrite Ha, Z.eqb_refl.
+    destruct (jgid a =? g) eqn:E; [apply Z.eqb_eq in E; exfalso; apply (Hg a); auto|].
+    f_equal. eapply IH; eauto.
+Qed.
+
+(** launching a job with a fresh group id adds exactly one job, at the smallest unused id, with the pids in order *)
+Lemma launch_decomp : forall t g p0 P bg,
+  sorted_from 1 t -> (forall j, In j t -> jgid j <> g) ->
+  exists k t1 t2, t = t1 ++ t2 /\ launch t g (p0 :: P) bg = t1 ++ mkjob k g (p0 :: P) [] Running bg :: t2.
+Proof.
+  intros t g p0 P bg Hs Hg. unfold launch. simpl. unfold insert_job at 2.
+  destruct (insert_job_from_fresh t 1 g p0 bg Hs Hg) as (k & t1 & t2 & A & B & _ & _ & E & _ & G).
+  exists k, t1, t2. split; [exact A|]. rewrite B. unfold new_job.
+  assert (Hg1 : forall x, In x t1 -> jgid x <> g).
+  { intros x Hx. apply Hg. rewrite A. apply in_app_iff; auto. }
+  clear A B Hs Hg E. change (p0 :: P) with ([p0] ++ P). generalize [p0] as cur. induction P as [|p P IH]; intros cur; simpl.
+  - rewrite app_nil_r. reflexivity.
+  - unfold insert_job at 2.
+    rewrite (insert_job_from_existing t1 1 k (mkjob k g cur [] Running bg) t2 g p bg G Hg1 eq_refl eq_refl).
+    simpl. rewrite IH. rewrite <- app_assoc. reflexivity.
 Qed.
 
 Lemma upd_gid_sorted : forall f gid t i, (forall j, jid (f j) = jid j) ->
@@ -152,7 +117,7 @@ Lemma remove_pid_sorted : forall t gid pid i,
 Proof.
   induction t as [|a t IH]; simpl; intros gid pid i H; [exact I|].
   destruct H as (H1 & H2). destruct (jgid a =? gid).
-  - destruct (match binary_search (jpids a) pid with inl i0 => remove_at i0 (jpids a) | inr _ => jpids a end).
+  - destruct (match position (jpids a) pid with Some i0 => remove_at i0 (jpids a) | None => jpids a end).
     + eapply sorted_from_weaken; [|exact H2]. lia.
     + simpl. auto.
   - simpl. split; [exact H1|]. apply IH; exact H2.
@@ -178,6 +143,21 @@ Proof.
   - apply upd_gid_sorted; [intros; reflexivity|assumption].
 Qed.
 
+Lemma mark_done_sorted : forall t gid pid i,
+  sorted_from i t -> sorted_from i (mark_job_as_done t gid pid).
+Proof.
+  intros t gid pid i H. unfold mark_job_as_done.
+  pose proof (remove_pid_sorted t gid pid i H) as R.
+  destruct (remove_drops t gid pid); [exact R|].
+  destruct (get_job_by_gid (remove_pid_from_job t gid pid) gid) as [j|]; [|exact R].
+  destruct (negb (is_stopped (jst j)) && all_members_stopped j); [|exact R].
+  unfold sh_mark_job_as_stopped. apply upd_gid_sorted; [intros; reflexivity|exact R].
+Qed.
+
+Lemma sh_continued_sorted : forall t pid gid i,
+  sorted_from i t -> sorted_from i (fst (sh_mark_job_member_continued t pid gid)).
+Proof. intros. unfold sh_mark_job_member_continued. simpl. apply upd_gid_sorted; [intros; reflexivity|assumption]. Qed.
+
 Lemma wait_loop_sorted : forall q s gid pids lastp n c st,
   sorted_from 1 (tab s) -> sorted_from 1 (tab (w_sh (wait_loop q s gid pids lastp n c st))).
 Proof.
@@ -186,16 +166,16 @@ Proof.
   destruct e as [p v|p v|p v|p]; cbn [ev_pid is_cont];
     destruct (memZ p pids); cbn [andb negb];
     try (match goal with |- context [(n <=? ?C)%nat] => destruct (n <=? C)%nat end);
-    try apply IH; cbn [tab w_sh]; unfold mark_job_as_done;
-    try apply remove_pid_sorted; try apply mark_stopped_sorted; exact H.
+    try apply IH; cbn [tab w_sh];
+    try apply mark_done_sorted; try apply mark_stopped_sorted; try apply sh_continued_sorted; exact H.
 Qed.
 
 Lemma poll_pid_sorted : forall gid s pid,
   sorted_from 1 (tab s) -> sorted_from 1 (tab (poll_pid gid s pid)).
 Proof.
   intros gid s pid H. unfold poll_pid.
-  destruct (map_get pid (m_reap (mp s))); [cbn [tab]; apply remove_pid_sorted; exact H|].
-  destruct (map_get pid (m_kill (mp s))); [cbn [tab]; apply remove_pid_sorted; exact H|].
+  destruct (map_get pid (m_reap (mp s))); [cbn [tab]; apply mark_done_sorted; exact H|].
+  destruct (map_get pid (m_kill (mp s))); [cbn [tab]; apply mark_done_sorted; exact H|].
   destruct (memZ pid (m_stop (mp s))); [cbn [tab]; apply mark_stopped_sorted; exact H|].
   destruct (memZ pid (m_cont (mp s))); [cbn [tab]; apply mark_continued_sorted; exact H|exact H].
 Qed.
@@ -239,7 +219,7 @@ Proof.
   intros h. pose proof (run_sorted h) as S. set (t := tab (r_sh (run h))) in *.
   split; [eapply sorted_from_nodup; exact S|].
   intros gid pid bg Hg.
-  destruct (insert_job_from_fresh t 1 gid pid bg S Hg) as (k & t1 & t2 & A & B & Cc & D & E & F).
+  destruct (insert_job_from_fresh t 1 gid pid bg S Hg) as (k & t1 & t2 & A & B & Cc & D & E & F & _).
   exists k. unfold insert_job, least_unused. rewrite B. split; [|split].
   - split; [exact Cc|]. split.
     + rewrite A, map_app, in_app_iff. intros [Hin|Hin]; apply in_map_iff in Hin;
@@ -248,100 +228,6 @@ Proof.
   - apply in_app_iff. right. left. reflexivity.
   - intros j Hj. rewrite A in Hj. apply in_app_iff in Hj. apply in_app_iff.
     destruct Hj; [left|right; right]; assumption.
-Qed.
-
-(** * C. remove_pid_from_job on an ascending pid vector takes out exactly the member *)
-From Coq Require Import Sorting.Sorted.
-
-Lemma ssorted_asc : forall l, StronglySorted Z.lt l -> asc l.
-Proof.
-  induction l as [|a l IH]; intros H; unfold asc; intros i j Hij Hj; simpl in Hj; [lia|].
-  apply StronglySorted_inv in H. destruct H as (H1 & H2).
-  destruct j as [|j]; [lia|]. destruct i as [|i]; simpl.
-  - rewrite Forall_forall in H2. apply H2. apply nth_In. lia.
-  - apply IH; auto; lia.
-Qed.
-
-Lemma remove_at_split : forall l i, (i < length l)%nat ->
-  exists l1 l2, l = l1 ++ nth i l 0 :: l2 /\ remove_at i l = l1 ++ l2.
-Proof.
-  induction l as [|a l IH]; intros i H; simpl in H; [lia|].
-  destruct i as [|i]; simpl.
-  - exists [], l. auto.
-  - destruct (IH i ltac:(lia)) as (l1 & l2 & A & B). exists (a :: l1), l2. simpl. rewrite <- A, B. auto.
-Qed.
-
-Lemma ssorted_remove : forall l1 x l2, StronglySorted Z.lt (l1 ++ x :: l2) ->
-  StronglySorted Z.lt (l1 ++ l2) /\ ~ In x (l1 ++ l2).
-Proof.
-  induction l1 as [|a l1 IH]; simpl; intros x l2 H; apply StronglySorted_inv in H; destruct H as (H1 & H2).
-  - split; [exact H1|]. rewrite Forall_forall in H2. intros Hin. specialize (H2 _ Hin). lia.
-  - destruct (IH _ _ H1) as (A & B). split.
-    + constructor; [exact A|]. rewrite Forall_forall in *. intros y Hy. apply H2.
-      apply in_app_iff in Hy. apply in_app_iff. simpl. tauto.
-    + intros [->|Hin]; [|tauto]. rewrite Forall_forall in H2.
-      specialize (H2 x ltac:(apply in_app_iff; simpl; auto)). lia.
-Qed.
-
-(** what removing a pid is meant to do (and what the proposed repair with
-    [iter().position] does): drop that pid from the first job of the group,
-    drop the job when no pid is left *)
-Definition drop_pid (pid : Z) (l : list Z) : list Z := filter (fun p => negb (p =? pid)) l.
-
-Fixpoint remove_spec (t : table) (gid pid : Z) : table :=
-  match t with
-  | [] => []
-  | j :: r =>
-      if jgid j =? gid then
-        match drop_pid pid (jpids j) with
-        | [] => r
-        | ps => mkjob (jid j) (jgid j) ps (jstopped j) (jst j) (jbg j) :: r
-        end
-      else j :: remove_spec r gid pid
-  end.
-
-Lemma drop_pid_notin : forall x l, ~ In x l -> drop_pid x l = l.
-Proof.
-  induction l as [|a l IH]; simpl; intros H; [reflexivity|].
-  destruct (a =? x) eqn:E; simpl.
-  - apply Z.eqb_eq in E. tauto.
-  - rewrite IH; tauto.
-Qed.
-
-Lemma drop_pid_mid : forall x l1 l2, ~ In x (l1 ++ l2) -> drop_pid x (l1 ++ x :: l2) = l1 ++ l2.
-Proof.
-  intros x l1 l2 H. unfold drop_pid. rewrite filter_app. simpl. rewrite Z.eqb_refl. simpl.
-  rewrite in_app_iff in H.
-  fold (drop_pid x l1). fold (drop_pid x l2). rewrite !drop_pid_notin; tauto.
-Qed.
-
-Definition pids_asc (t : table) : Prop := forall j, In j t -> StronglySorted Z.lt (jpids j).
-
-Theorem remove_pid_exact : forall t gid pid, pids_asc t ->
-  remove_pid_from_job t gid pid = remove_spec t gid pid.
-Proof.
-  induction t as [|a t IH]; simpl; intros gid pid Hs; [reflexivity|].
-  destruct (jgid a =? gid) eqn:E.
-  - assert (Sa : StronglySorted Z.lt (jpids a)) by (apply Hs; simpl; auto).
-    pose proof (binary_search_asc (jpids a) pid (ssorted_asc _ Sa)) as (F1 & F2).
-    destruct (binary_search (jpids a) pid) as [i|i] eqn:B.
-    + destruct (F2 i eq_refl) as (B2 & B3).
-      destruct (remove_at_split (jpids a) i B2) as (l1 & l2 & A & R).
-      rewrite B3 in A. rewrite R. rewrite A in Sa. destruct (ssorted_remove _ _ _ Sa) as (S1 & S2).
-      rewrite A. rewrite drop_pid_mid by exact S2. destruct (l1 ++ l2); reflexivity.
-    + assert (N : ~ In pid (jpids a)).
-      { intros Hin. destruct (F1 Hin) as (k & K & _). discriminate. }
-      rewrite drop_pid_notin by exact N. destruct (jpids a); reflexivity.
-  - f_equal. apply IH. intros j Hj. apply Hs. simpl; auto.
-Qed.
-
-(** ascending pid vectors stay ascending *)
-Lemma drop_pid_sorted : forall x l, StronglySorted Z.lt l -> StronglySorted Z.lt (drop_pid x l).
-Proof.
-  induction l as [|a l IH]; simpl; intros H; [constructor|].
-  apply StronglySorted_inv in H. destruct H as (H1 & H2).
-  destruct (negb (a =? x)); [|auto]. constructor; [auto|].
-  rewrite Forall_forall in *. intros y Hy. apply H2. unfold drop_pid in Hy. apply filter_In in Hy. tauto.
 Qed.
 
 (** * D. no status of another process is lost by a foreground wait *)
@@ -361,52 +247,66 @@ Proof.
   rewrite G. reflexivity.
 Qed.
 
-(** statuses of processes that are not members of the waited job are all
-    parked, in order, and the wait keeps blocking *)
-Theorem wait_parks_others : forall q s gid pids lastp n c st,
-  (forall j, In j (tab s) -> jgid j <> 0) -> (c < n)%nat ->
-  (forall e, In e q -> memZ (ev_pid e) pids = false) ->
-  wait_loop q s gid pids lastp n c st = mkwres (mksh (tab s) (handle_sigchld (mp s) q)) st true [].
+(** * C. remove_pid_from_job takes out exactly the first occurrence of the pid, for every pid vector *)
+Lemma position_from_spec : forall x l i,
+  match position_from i l x with
+  | Some k => (i <= k)%nat /\ remove_at (k - i) l = set_remove x l /\ In x l
+  | None => set_remove x l = l /\ ~ In x l
+  end.
 Proof.
-  induction q as [|e q IH]; intros s gid pids lastp n c st Hg Hc Hq.
-  - destruct s; reflexivity.
-  - cbn [wait_loop]. rewrite (Hq e (or_introl eq_refl)). cbn [andb].
-    assert (Hq' : forall e0, In e0 q -> memZ (ev_pid e0) pids = false) by (intros; apply Hq; simpl; auto).
-    assert (Hn : (n <=? c)%nat = false) by (apply Nat.leb_gt; exact Hc).
-    unfold handle_sigchld in *. cbn [fold_left].
-    destruct e as [p v|p v|p v|p]; cbn [ev_pid]; rewrite ?Hn; try rewrite mark_stopped_gid0 by exact Hg;
-      rewrite IH by assumption; reflexivity.
+  induction l as [|a l IH]; intros i; simpl; [auto|].
+  destruct (a =? x) eqn:E.
+  - apply Z.eqb_eq in E. replace (i - i)%nat with 0%nat by lia. simpl. auto.
+  - apply Z.eqb_neq in E. specialize (IH (S i)). destruct (position_from (S i) l x) as [k|].
+    + destruct IH as (H1 & H2 & H3). split; [lia|]. split; [|auto].
+      replace (k - i)%nat with (S (k - S i)) by lia. simpl. rewrite H2. reflexivity.
+    + destruct IH as (H1 & H2). rewrite H1. split; [reflexivity|]. intros [H|H]; [congruence|tauto].
 Qed.
 
-(** the decidable form of the hypothesis *)
-Lemma ascb_ssorted : forall l, ascb l = true -> StronglySorted Z.lt l.
+Lemma remove_position : forall l x,
+  match position l x with Some i => remove_at i l | None => l end = set_remove x l.
 Proof.
-  induction l as [|a l IH]; intros E; [constructor|].
-  simpl in E. destruct l as [|b l]; [repeat constructor|].
-  apply andb_prop in E. destruct E as (E1 & E2). apply Z.ltb_lt in E1.
-  specialize (IH E2). constructor; [exact IH|].
-  apply StronglySorted_inv in IH. destruct IH as (_ & F).
-  constructor; [exact E1|]. rewrite Forall_forall in *. intros y Hy. specialize (F y Hy). lia.
+  intros l x. unfold position. pose proof (position_from_spec x l 0) as H.
+  destruct (position_from 0 l x) as [k|].
+  - destruct H as (_ & H & _). rewrite Nat.sub_0_r in H. exact H.
+  - destruct H as (H & _). auto.
 Qed.
 
-Definition known_table (t : table) : bool := negb (forallb (fun j => ascb (jpids j)) t).
+(** what removing a pid is meant to do: drop its first occurrence from the
+    first job of the group, drop the job when no pid is left *)
+Fixpoint remove_spec (t : table) (gid pid : Z) : table :=
+  match t with
+  | [] => []
+  | j :: r =>
+      if jgid j =? gid then
+        match set_remove pid (jpids j) with
+        | [] => r
+        | ps => mkjob (jid j) (jgid j) ps (jstopped j) (jst j) (jbg j) :: r
+        end
+      else j :: remove_spec r gid pid
+  end.
 
-Theorem remove_pid_exact_b : forall t gid pid, known_table t = false ->
-  remove_pid_from_job t gid pid = remove_spec t gid pid.
+Theorem remove_pid_exact : forall t gid pid, remove_pid_from_job t gid pid = remove_spec t gid pid.
 Proof.
-  intros t gid pid H. apply remove_pid_exact. intros j Hj.
-  unfold known_table in H. apply negb_false_iff in H. rewrite forallb_forall in H.
-  apply ascb_ssorted, H, Hj.
+  induction t as [|a t IH]; simpl; intros gid pid; [reflexivity|].
+  destruct (jgid a =? gid); [|f_equal; apply IH].
+  rewrite remove_position. destruct (set_remove pid (jpids a)); reflexivity.
 Qed.
 
-(** the tables a history reaches have ascending pid vectors unless the history is in class (a) *)
-Lemma drop_sub_asc : forall l i, StronglySorted Z.lt l -> StronglySorted Z.lt (remove_at i l).
+Lemma set_remove_in : forall x y l, In y (set_remove x l) -> In y l.
 Proof.
-  intros l i H. destruct (Nat.lt_ge_cases i (length l)) as [L|L].
-  - destruct (remove_at_split l i L) as (l1 & l2 & A & B). rewrite B. rewrite A in H.
-    apply (ssorted_remove _ _ _ H).
-  - assert (E : remove_at i l = l).
-    { clear H. revert i L. induction l as [|a l IH]; intros i L; destruct i; simpl in *; try reflexivity; try lia.
-      f_equal. apply IH. lia. }
-    rewrite E. exact H.
+  induction l as [|a l IH]; simpl; [tauto|]. destruct (a =? x); simpl; tauto.
+Qed.
+
+Lemma set_remove_nodup : forall x l, NoDup l ->
+  NoDup (set_remove x l) /\ ~ In x (set_remove x l) /\ forall y, y <> x -> In y l -> In y (set_remove x l).
+Proof.
+  induction l as [|a l IH]; simpl; intros H; [repeat split; auto; constructor|].
+  inversion H as [|? ? Ha Hl]; subst. destruct (IH Hl) as (I1 & I2 & I3).
+  destruct (a =? x) eqn:E.
+  - apply Z.eqb_eq in E. subst a. repeat split; auto. intros y Hy [->|Hin]; [congruence|auto].
+  - apply Z.eqb_neq in E. repeat split.
+    + constructor; [|exact I1]. intros Hin. apply Ha. eapply set_remove_in; eauto.
+    + intros [->|Hin]; [congruence|tauto].
+    + intros y Hy [->|Hin]; simpl; auto.
 Qed.
